@@ -70,3 +70,5 @@ func (r *Rand) Perm(n int) []int {
 // Fork gives an independent child stream (so that adding draws in one part of a
 // generator does not shift every later part).
 func (r *Rand) Fork() *Rand { return &Rand{s: r.Uint64() ^ 0xA5A5A5A5DEADBEEF} }
+
+func (r *Rand) PickInt(xs ...int) int { return xs[r.Intn(len(xs))] }
